@@ -15,7 +15,7 @@ import numpy as np
 
 from .. import common, pipeline
 from ..gen import workload
-from ..mon import geom, match
+from ..mon import pkastub, geom, match
 from ..ref import states
 from ..ref import topology as topo
 from ..run import Res
@@ -57,6 +57,9 @@ def cases(tier, seed):
             o.append("--drop-water")
         if spec["ff"] == "PARSE" and rng.random() < 0.3:
             o.append(rng.choice(["--neutraln", "--neutralc"]))
+        if rng.random() < 0.15:
+            # the pKa route (stubbed pKa source, random table): titrated states, hydrogens stripped and rebuilt
+            o += pkastub.titration_opts(rng)
         return o
 
     for rep in range(1 if tier == "quick" else 30):
@@ -67,7 +70,7 @@ def cases(tier, seed):
     n = 170 if tier == "quick" else 18000
     for spec in workload.standard_cases(tier, seed, n, n, opts_fn=opts, frag_share=0.35,
                                         p={"icode_prob": 0.2, "variant_prob": 0.15, "na_prob": 0.15, "waters": [0, 2, 5, 8],
-                                           "damage_prob": 0.3, "dense_prob": 0.8, "crowd_prob": 0.3,
+                                           "damage_prob": 0.3, "gap_prob": 0.25, "dense_prob": 0.8, "crowd_prob": 0.3,
                                            "hydrogens": ["none", "none", "some", "side"]}):
         spec["kind"] = "run"
         out.append(spec)
@@ -209,7 +212,9 @@ def check_endstate(res, spec, m, r, opts):
             twin = {"OD1": "OD2", "OD2": "OD1", "OE1": "OE2", "OE2": "OE1", "O": "OXT", "OXT": "O"}
             Tn = [T[n]] + ([T[twin[n]]] if n in twin and twin[n] in T else [])
             if hooked:
-                tol = (0.03 + rmax) if fitted else 0.15
+                # the fit residual measures distortion of the (bonded) anchors in the input; it is capped so that an
+                # anchor that is not bonded at all (e.g. taken across a backbone gap) cannot excuse the result
+                tol = (0.03 + min(rmax, 0.5)) if fitted else 0.15
             else:
                 near = {parent} | set(g[parent])
                 for b2 in list(near):
@@ -283,7 +288,10 @@ def run_case(spec):
     res = Res()
     m = workload.materialise(spec)
     geom.drain()
-    r = pipeline.run(m["text"], spec["opts"], workname="c05")
+    with pkastub.for_opts(spec["opts"], m["truth"], spec["seed"]) as titr:
+        r = pipeline.run(m["text"], spec["opts"], workname="c05")
+    if titr is not None:
+        res.count("pka_route_runs")
     ev, counts = geom.drain()
     res.count("runs")
     res.count("fit_events", counts["find_coordinates"])
